@@ -169,7 +169,10 @@ def shards(tier, seed):
     for kind in 'LQC':
         for ch in tp['choices']:
             out.append({'what': 'exact', 'kind': kind, 'choice': ch})
-        out.append({'what': 'float', 'kind': kind})
+        if tier == 'thorough':
+            out += [{'what': 'float', 'kind': kind, 'part': [i, 16]} for i in range(16)]
+        else:
+            out.append({'what': 'float', 'kind': kind})
         out.append({'what': 'special', 'kind': kind})
     return out
 
@@ -197,21 +200,37 @@ def run_exact(kind, choice, acc, only=None):
                           detail='assignment %s' % r['mismatch'])
 
 
-def float_cases(kind, scales):
+LATTICE = [0j, 1 + 0j, -7.5 + 0.1j, 0.1 + 1j / 3, 2.5e5 - 1.0e5j, -1j, 2 + 0j, 1 + 1j, 1e-9 + 0j]
+ROT = complex(0.6, 0.8)        # a rotation with exactly representable entries
+
+
+def float_cases(kind, scales, tier='quick'):
     lib = {'L': AB.LINES, 'Q': AB.QUADS, 'C': AB.CUBICS}[kind]
     for name, pts in lib.items():
         for sc in scales:
             yield name, sc, [complex(p) * sc for p in pts]
+    if tier == 'thorough':
+        # every assignment of the control points over a small lattice of values (all coincidence
+        # patterns: repeated points, closed curves, retraced legs, one far-away point) and the
+        # library shapes rotated and moved far from the origin
+        n = CLASSES[kind][1]
+        for idx in itertools.product(range(len(LATTICE)), repeat=n + 1):
+            yield 'lat:' + ','.join(map(str, idx)), 1.0, [LATTICE[i] for i in idx]
+        for name, pts in lib.items():
+            yield 'rot:' + name, 1.0, [complex(p) * ROT for p in pts]
+            yield 'far:' + name, 1.0, [complex(p) + (3.0e5 + 2.0e5j) for p in pts]
 
 
 def exact_pts(pts):
     return [GQ.of(p) for p in pts]
 
 
-def run_float(kind, scales, acc, only=None):
+def run_float(kind, scales, acc, only=None, tier='quick', part=None):
     cls, n = CLASSES[kind]
     ts = AB.T_ALPHABET + AB.T_OUTSIDE
-    for name, sc, pts in float_cases(kind, scales):
+    for ci, (name, sc, pts) in enumerate(float_cases(kind, scales, tier)):
+        if part is not None and ci % part[1] != part[0]:
+            continue
         if only and (name, sc) != only:
             continue
         seg = cls(*pts)
@@ -241,6 +260,8 @@ def run_float(kind, scales, acc, only=None):
                 'poly2bez': outcome(lambda: poly2bez(pl).point(t)),
             }
             for rn, r in reps.items():
+                if rn == 'poly2bez' and all(q == pts[0] for q in pts):
+                    continue        # a constant polynomial has no Bezier segment of degree 1..3 (as in run_special)
                 acc.case(lambda: dict(case, t=t, q=rn), cls='float/%s/%s' % (kind, rn))
                 if r[0] != 'ok' or not abs(complex(r[1]) - truth) <= bound:
                     acc.violation('float_value_off', {'kind': kind, 'representation': rn, 'outside01': not 0 <= t <= 1},
@@ -264,7 +285,7 @@ def run_shard(desc, tier, seed):
     elif desc['what'] == 'special':
         run_special(desc['kind'], acc)
     else:
-        run_float(desc['kind'], tier_params(tier, seed)['scales'], acc)
+        run_float(desc['kind'], tier_params(tier, seed)['scales'], acc, tier=tier, part=desc.get('part'))
     return acc
 
 
@@ -294,6 +315,8 @@ def space(tier, seed):
     return {'identities_per_class': {k: [i[0] for i in identities(k)] for k in 'LQC'},
             'value_set_choices': tp['choices'], 'float_scales': tp['scales'],
             't_alphabet': AB.T_ALPHABET + AB.T_OUTSIDE,
+            'float_lattice (thorough: every assignment of control points over it, plus rotated / far-away library shapes)':
+                [str(z) for z in LATTICE] if tier == 'thorough' else None,
             'grid': 'full product grid, |S_i| = degree bound + 1 per variable (degree bounds in samples)'}
 
 
@@ -305,5 +328,5 @@ def replay(case):
         run_special(case['kind'], acc, only=case['identity'])
         acc.vlist = [v for v in acc.vlist if v['case'] == case]
     else:
-        run_float(case['kind'], [case['scale']], acc, only=(case['shape'], case['scale']))
+        run_float(case['kind'], [case['scale']], acc, only=(case['shape'], case['scale']), tier='thorough')
     return acc.vlist
